@@ -15,8 +15,11 @@ def _s(rng, lo=1, hi=8, extra=()):
 
 
 def _toml_unsafe(s):
-    """K7 witness class: strings of only double quotes, a backslash followed by x/u/U, NUL/DEL"""
-    return (s != "" and set(s) == {'"'}) or re.search(r"\\[xuU]", s) is not None or "\x00" in s or "\x7f" in s
+    """K7 witness class (toml 0.10.2, measured exhaustively over a 6-letter alphabet up to
+    length 5): the string is a single double quote or starts with two double quotes (comes
+    back empty / truncated), or contains a backslash followed by x, u or U (load raises or
+    un-escapes), or contains NUL / DEL"""
+    return s == '"' or s.startswith('""') or re.search(r"\\[xuU]", s) is not None or "\x00" in s or "\x7f" in s
 
 
 def _flags_reset():
